@@ -72,7 +72,13 @@ POOL = [
     ("empty", ""),
 ]
 CORE = ["h-incr", "ul-styles", "blanks", "h-dup", "bq-space", "fence-noblank", "lrd-def", "lrd-use", "pragma-num", "after-pragma", "open-list-bq", "parsercrash"]
-PRE = ["--set", "extensions.front-matter.enabled=$!True", "--continue-on-error"]
+PRE = [
+    "--set", "extensions.front-matter.enabled=$!True",
+    # rules that do nothing unless configured are configured, so that their state is exercised too
+    "--set", "plugins.md043.headings=# a,## b",
+    "--set", "plugins.md044.names=Aaa",
+    "--continue-on-error",
+]
 _IDX = {n: i for i, (n, _t) in enumerate(POOL)}
 _TXT = dict(POOL)
 
@@ -91,6 +97,8 @@ class HistSpace(spaces.Space):
         for h in itertools.product(CORE, repeat=2):
             cases.append(("api-scan", h))
             cases.append(("api-fix", h))
+        for h in itertools.product(names, repeat=2):
+            cases.append(("parse", h))
         self.cases = cases
 
     def __len__(self):
@@ -162,6 +170,8 @@ def evaluate(payload):
     res = {"fail": None, "feeds": len(hist)}
     if mode.startswith("api"):
         return _api(mode, hist, res)
+    if mode == "parse":
+        return _parse_hist(hist, res)
     files = {_fname(i, n): _TXT[n] for i, n in enumerate(hist)}
     names = sorted(files)
     r, by = _run_files(mode, files, names)
@@ -185,6 +195,34 @@ def evaluate(payload):
     res["nontrivial"] = bool(last[0][0])
     res["fail"] = fail
     res["outcome"] = fail[0] if fail else f"{mode}:independent"
+    return res
+
+
+def _parse_hist(hist, res):
+    """the documents of the history through ONE parser instance (as one invocation does): the token
+    stream and HTML of the last one must equal those from a fresh instance"""
+    from pymarkdown.transform_gfm.transform_to_gfm import TransformToGfm
+
+    from .. import parser
+
+    def ser(tm, text):
+        st, v, _w = parser.run_guarded(lambda: tm.transform(text, do_add_end_of_stream_token=True))
+        if st != "ok":
+            return ("ERR", st)
+        st2, html, _w = parser.run_guarded(lambda: TransformToGfm().transform(v))
+        return ([str(t) for t in v], html if st2 == "ok" else st2)
+
+    tm = parser.tokenizer(("front-matter", "linter-pragmas"))
+    got = None
+    for n in hist:
+        got = ser(tm, _TXT[n])
+    fresh = ser(parser.tokenizer(("front-matter", "linter-pragmas")), _TXT[hist[-1]])
+    fail = None
+    if got != fresh:
+        fail = (f"parse:token-stream-depends-on-history:{hist[-1]}", {"history": list(hist[:-1]), "after_history": got, "fresh": fresh})
+    res["nontrivial"] = True
+    res["fail"] = fail
+    res["outcome"] = fail[0] if fail else "parse:independent"
     return res
 
 
